@@ -91,6 +91,13 @@ type XG struct {
 	opts  XGOpts
 	nid   int
 	err   error
+
+	byInstr map[instrKey]*Node
+}
+
+type instrKey struct {
+	c  *Ctx
+	in ssa.Instruction
 }
 
 type XGOpts struct {
